@@ -75,6 +75,7 @@ class SolverState(object):
         self.last_op_stop = False
         self.moved_by_ranges = False
         self.pair_clean = True     # no constraints / penalty / reducer ever installed
+        self.collapsed = False
         self.cur_con = None; self.cur_box = None; self.cur_mode = None
         self.box_log = []          # (first call index, (lo, hi)) boxes in force, for C02
         self.box_since_start = None; self.box_changed = False
@@ -171,7 +172,7 @@ class SolverState(object):
             self._check_evalmon(where)
         elif self.evalmon is not None and self.evalmon_from_start:
             self._check_evalmon(where)
-        if self.pair_clean and not self.moved_by_ranges and self.iters() >= 1 and self.on('C04.best_pair'):
+        if self.pair_clean and not self.collapsed and not self.moved_by_ranges and self.iters() >= 1 and self.on('C04.best_pair'):
             # '(best x, best energy)': with no constraints, penalty or reducer ever installed, the reported pair is
             # one of the evaluations the solver made - the reported point was evaluated and the energy is its value
             be = float(s.bestEnergy)
@@ -354,6 +355,7 @@ class SolverState(object):
             # changed somewhere inside this call, so monotonicity is judged from here on only
             self.redecorate()
             self.ctx.label('solve-with-collapse-termination')
+            self.collapsed = True       # the solver may now carry constraints the harness did not install
         # Solve() clears the exit flag at its start
         self.exit_requested = bool(s._EARLYEXIT)
         self.cost.enabled = False
@@ -368,6 +370,33 @@ class SolverState(object):
         if msg:
             self.stopped_msg = msg
             self.check_stopped(where, msg)
+
+    def _installed_constraints_fit(self, lo, hi):
+        """do the constraints the solver carries map the box into itself?  (probed at corners, centre and the clipped best)"""
+        import itertools
+        lo = FL(lo); hi = FL(hi)
+        c = getattr(self.solver, '_constraints', None)
+        if c is None:
+            return True
+        fin = lambda v, d: v if math.isfinite(v) else d
+        L = [fin(l, -50.0) for l in lo]; H = [fin(h, 50.0) for h in hi]
+        pts = [list(p) for p in itertools.islice(itertools.product(*zip(L, H)), 16)]
+        pts.append([0.5 * (a + b) for a, b in zip(L, H)])
+        try:
+            pts.append([min(max(float(v), a), b) for v, a, b in zip(self.solver.bestSolution, L, H)])
+        except Exception:
+            pass
+        self.cost.enabled = False
+        try:
+            for p in pts:
+                q = [float(v) for v in c(list(p))]
+                if not lab.in_box(q, lo, hi):
+                    return False
+        except Exception:
+            return False
+        finally:
+            self.cost.enabled = True
+        return True
 
     def _look_at_dump(self):
         """did the operation just performed write the periodic restart file?"""
@@ -468,6 +497,11 @@ class SolverState(object):
                 return self.apply_ranges_c02(op)
             if op[1] is not None and self.cur_con and not lab.box_compatible(self.cur_con, op[1], op[2]):
                 self.ctx.exclude('ranges-incompatible-with-constraint (op skipped)')
+                return
+            if op[1] is not None and self.collapsed and not self._installed_constraints_fit(op[1], op[2]):
+                # same precondition, for the constraints a Collapse() inside Solve installed (parameters fixed at values
+                # that need not lie in the new box)
+                self.ctx.exclude('ranges-incompatible-with-collapse-constraints (op skipped)')
                 return
             if op[1] is None:
                 s.SetStrictRanges(False, False)
